@@ -25,7 +25,8 @@ holds for all their answers.
 * `friendly_total`, `friendly_short_record_panics` – exactly when the record indexing panics.
 * `friendly_config_black_wins_ties`, `friendly_ties_go_to_black`.
 * `taktician_silent_off_turn`, `taktician_timeout_rule`.
-* observations: `cairn_undo_resigns`, `doubleStack_resume_resigns` (the remembered squares depend on one call per ply). -/
+* `cairn_undo_no_resign_glue`, `doubleStack_resume_no_resign_glue` (the notes are rebuilt from the record);
+  `cairn_undo_resigns_pinned`, `doubleStack_resume_resigns_pinned`: the tree before `fixes/C07-fpa-record-notes.diff`. -/
 namespace C20
 open Tak Tak.FPA Tak.Glue Spec.FPA
 
@@ -123,11 +124,13 @@ theorem friendly_resigns_iff_rule_rejects (fpa f' : Option (Variant × Rule)) (g
             | ok msg => rw [he] at h; cases h; exact ⟨msg, rfl⟩
 
 /-- what a resignation is: the zero move is returned, the searcher is not consulted, and the text told to the
-opponent is the rule's table entry for the ply of the rejected move -/
+opponent is the rule's table entry for the ply of the rejected move; the rejection is `LegalMove`'s on the newest pair of
+the record, with the notes rebuilt from the older pairs (`entryRule`) -/
 theorem friendly_resign_effect (var : Variant) (r : Rule) (f' : Option (Variant × Rule)) (g : GameRec) (p : Pos)
     (o : CheckOracle) (msg : Msg) (h : Glue.friendlyGetMove (some (var, r)) g p o = .ok (f', .resign msg)) :
     (∀ ans, (Action.resign msg).returned ans = zeroMove) ∧ (Action.resign msg).searches = false ∧
-    ∃ q m r', prevOf g = .ok (q, m) ∧ legalMove var r (viewOfPos q) m = .ok (r', false) ∧
+    ∃ q m r1 r', prevOf g = .ok (q, m) ∧ entryRule var r g = .ok r1 ∧
+      legalMoveR var r1 (viewOfPos q) m = .ok (r', false) ∧
       errMsg var q.move = .ok msg ∧ f' = some (var, r') := by
   refine ⟨fun _ => rfl, rfl, ?_⟩
   rw [friendly_cases, fpaCheck_some] at h
@@ -158,10 +161,13 @@ theorem friendly_resign_effect (var : Variant) (r : Rule) (f' : Option (Variant 
         | ok msg' =>
           rw [he] at h
           cases h
-          refine ⟨q, m, r', rfl, ?_, he, rfl⟩
           unfold prevCheck at hc
           split at hc
-          · rw [hq] at hc; exact hc
+          · cases her : entryRule var r g with
+            | error e => rw [her] at hc; cases hc
+            | ok r1 =>
+              rw [her, hq] at hc
+              exact ⟨q, m, r1, r', rfl, rfl, hc, he, rfl⟩
           · cases hc
 
 /-! ## off turn, and the clock of a search -/
@@ -289,7 +295,9 @@ example : ∃ p0, Pos.new (friendlyConfig false 5) = .ok p0 ∧
 `t` is a state of C20's opening game (`Spec.FPA`: the rule's remembered squares, the current position, the
 previous one with the move that led here) reachable within the horizon for which the C20 claim `Holds`; the
 call `(g, p)` shows the rule code what `t` shows it (same view of the position, same side to move, same previous
-pair; `g.color` the bot's colour).  Then whatever `GetMove` returns is the zero move (resignation, not the bot's
+pair; `g.color` the bot's colour), and the notes rebuilt from the record `g` are `t`'s (`hnotes`; the rule value may hold
+any notes `r` on entry — `Proofs.FPARepair.entryNotes_eq`: for a record with plies 0, 1, 2, … the rebuilt notes do not
+depend on them).  Then whatever `GetMove` returns is the zero move (resignation, not the bot's
 turn) or a move that is legal by the rule book in `t.cur`: the scripted move by `C20.Holds`, the searcher's answer
 by the contract C04 gives it (`hsearch`: legal whenever it is consulted).  Instances: `friendly_move_legal_centre`
 (every size 4..8), `friendly_move_legal_4x4`, `friendly_move_legal_5x5` (double stack and cairn). -/
@@ -299,10 +307,14 @@ theorem friendly_move_legal (var : Variant) (color : Color) (size horizon : Nat)
     (g : GameRec) (p : Pos) (o : CheckOracle) (f' : Option (Variant × Rule)) (a : Action)
     (hcol : g.color = color) (hview : viewOfPos p = viewOf t.cur) (hmv : p.toMove = t.cur.toMove)
     (hprev : prevViews g = t.prev.map (fun (q, m) => (viewOf q, m)))
-    (h : Glue.friendlyGetMove (some (var, t.rule)) g p o = .ok (f', a))
+    (r : Rule) (hnotes : Glue.entryNotes var r g p = .ok t.rule)
+    (h : Glue.friendlyGetMove (some (var, r)) g p o = .ok (f', a))
     (ans : Move) (hsearch : a.searches = true → (Spec.step t.cur (Spec.decode ans)).isSome = true) :
     a.returned ans = zeroMove ∨ (Spec.step t.cur (Spec.decode (a.returned ans))).isSome = true := by
-  obtain ⟨r', rep, hf, _, hm⟩ := glue_refines_fpa var t.rule g p o f' a h
+  obtain ⟨r1, r', rep, hn, hf, _, hm⟩ := glue_refines_fpa var r g p o f' a h
+  rw [hnotes] at hn
+  injection hn with hn
+  subst hn
   have hturn : turn specBoard var color t = .ok (r', rep) := by
     unfold turn
     show FPA.friendlyGetMove var color t.rule (viewOf t.cur) t.cur.toMove (t.prev.map (fun (q, m) => (viewOf q, m))) = _
@@ -323,10 +335,11 @@ theorem friendly_move_legal_centre (size : Nat) (hs : size ∈ [4, 5, 6, 7, 8]) 
     (g : GameRec) (p : Pos) (o : CheckOracle) (f' : Option (Variant × Rule)) (a : Action)
     (hcol : g.color = color) (hview : viewOfPos p = viewOf t.cur) (hmv : p.toMove = t.cur.toMove)
     (hprev : prevViews g = t.prev.map (fun (q, m) => (viewOf q, m)))
-    (h : Glue.friendlyGetMove (some (.center, t.rule)) g p o = .ok (f', a))
+    (r : Rule) (hnotes : Glue.entryNotes .center r g p = .ok t.rule)
+    (h : Glue.friendlyGetMove (some (.center, r)) g p o = .ok (f', a))
     (ans : Move) (hsearch : a.searches = true → (Spec.step t.cur (Spec.decode ans)).isSome = true) :
     a.returned ans = zeroMove ∨ (Spec.step t.cur (Spec.decode (a.returned ans))).isSome = true :=
-  friendly_move_legal .center color size 2 (fpa_centre size hs color hc) k hk t hreach g p o f' a hcol hview hmv hprev h ans hsearch
+  friendly_move_legal .center color size 2 (fpa_centre size hs color hc) k hk t hreach g p o f' a hcol hview hmv hprev r hnotes h ans hsearch
 
 /-- the C20 claim holds for every variant and both colours on the 4×4 and 5×5 boards (centre: horizon 2 suffices, 6 is
 what the other two need; stated with the horizon each was proved for) -/
@@ -353,10 +366,11 @@ theorem friendly_move_legal_4x4_5x5 (var : Variant) (hv : var ≠ .center) (colo
     (g : GameRec) (p : Pos) (o : CheckOracle) (f' : Option (Variant × Rule)) (a : Action)
     (hcol : g.color = color) (hview : viewOfPos p = viewOf t.cur) (hmv : p.toMove = t.cur.toMove)
     (hprev : prevViews g = t.prev.map (fun (q, m) => (viewOf q, m)))
-    (h : Glue.friendlyGetMove (some (var, t.rule)) g p o = .ok (f', a))
+    (r : Rule) (hnotes : Glue.entryNotes var r g p = .ok t.rule)
+    (h : Glue.friendlyGetMove (some (var, r)) g p o = .ok (f', a))
     (ans : Move) (hsearch : a.searches = true → (Spec.step t.cur (Spec.decode ans)).isSome = true) :
     a.returned ans = zeroMove ∨ (Spec.step t.cur (Spec.decode (a.returned ans))).isSome = true :=
-  friendly_move_legal var color size 6 (holds_4x4_5x5 var hv color hc size hs) k hk t hreach g p o f' a hcol hview hmv hprev h ans hsearch
+  friendly_move_legal var color size 6 (holds_4x4_5x5 var hv color hc size hs) k hk t hreach g p o f' a hcol hview hmv hprev r hnotes h ans hsearch
 
 /-- the bit-level call `(g, p)` of `GetMove` shows the state `t` of the opening game: `p` is well-formed and abstracts
 to `t.cur`; the record's previous pair is (a well-formed position abstracting to `t`'s previous position, the same
@@ -376,11 +390,12 @@ theorem friendly_move_legal_abs (basis : Array W) (var : Variant) (color : Color
     (hreach : Reach specBoard var color k (init size) t)
     (g : GameRec) (p : Pos) (o : CheckOracle) (f' : Option (Variant × Rule)) (a : Action)
     (habs : Abstracts basis g p color t)
-    (h : Glue.friendlyGetMove (some (var, t.rule)) g p o = .ok (f', a))
+    (r : Rule) (hnotes : Glue.entryNotes var r g p = .ok t.rule)
+    (h : Glue.friendlyGetMove (some (var, r)) g p o = .ok (f', a))
     (ans : Move) (hsearch : a.searches = true → (Spec.step (Spec.abs p) (Spec.decode ans)).isSome = true) :
     a.returned ans = zeroMove ∨ (Spec.step (Spec.abs p) (Spec.decode (a.returned ans))).isSome = true := by
   rw [habs.cur] at hsearch ⊢
-  refine friendly_move_legal var color size horizon hH k hk t hreach g p o f' a habs.color ?_ ?_ ?_ h ans hsearch
+  refine friendly_move_legal var color size horizon hH k hk t hreach g p o f' a habs.color ?_ ?_ ?_ r hnotes h ans hsearch
   · rw [viewOfPos_abs habs.wf, habs.cur]
   · rw [← habs.cur]; rfl
   · have hp := habs.prev
@@ -409,7 +424,8 @@ def friendly_move_legal_statement : Prop :=
     ∀ (g : GameRec) (p : Pos) (o : CheckOracle) (f' : Option (Variant × Rule)) (a : Action),
       g.color = color → viewOfPos p = viewOf t.cur → p.toMove = t.cur.toMove →
       prevViews g = t.prev.map (fun (q, m) => (viewOf q, m)) →
-      Glue.friendlyGetMove (some (var, t.rule)) g p o = .ok (f', a) →
+      ∀ r : Rule, Glue.entryNotes var r g p = .ok t.rule →
+      Glue.friendlyGetMove (some (var, r)) g p o = .ok (f', a) →
       ∀ ans, (a.searches = true → (Spec.step t.cur (Spec.decode ans)).isSome = true) →
         a.returned ans = zeroMove ∨ (Spec.step t.cur (Spec.decode (a.returned ans))).isSome = true
 
@@ -432,7 +448,8 @@ example : ∃ p0, Pos.new (friendlyConfig true 5) = .ok p0 ∧
 /-- the rule's own code does not panic on this call (for the openings of C20 that is part of `C20.Holds`) -/
 def RuleTotal (fpa : Option (Variant × Rule)) (g : GameRec) (p : Pos) : Prop :=
   ∀ var r, fpa = some (var, r) →
-    (∀ q m, prevOf g = .ok (q, m) → ∃ x, legalMove var r (viewOfPos q) m = .ok x) ∧
+    (p.move > 0 → ∃ r1, entryRule var r g = .ok r1 ∧
+      ∀ q m, prevOf g = .ok (q, m) → ∃ x, legalMoveR var r1 (viewOfPos q) m = .ok x) ∧
     (∀ r', ∃ y, getMove var r' (viewOfPos p) = .ok y)
 
 /-- **No index panic on a record with a previous position**: when the record holds at least two positions and one
@@ -471,12 +488,13 @@ theorem friendly_total (fpa : Option (Variant × Rule)) (g : GameRec) (p : Pos) 
     rw [fpaCheck_some]
     unfold prevCheck
     by_cases hp : p.move > 0
-    · simp only [hp, if_true, hq]
+    · obtain ⟨r1, her, hl⟩ := hl hp
+      simp only [hp, if_true, her, hq]
       obtain ⟨⟨r', ok⟩, hx⟩ := hl q m hq
       rw [hx]
       cases ok with
       | false =>
-        obtain ⟨msg, he⟩ := errMsg_ok_of_reject hx
+        obtain ⟨msg, he⟩ := errMsg_ok_of_reject (r := if (viewOfPos q).ply = 0 then {} else r1) hx
         simp only [he]
         exact ⟨_, rfl⟩
       | true =>
@@ -542,7 +560,7 @@ theorem friendly_short_record_panics (var : Variant) (r : Rule) (g : GameRec) (p
   rw [friendly_cases, fpaCheck_some]
   unfold prevCheck
   simp only [hp, if_true, hq]
-  exact ⟨_, rfl⟩
+  cases entryRule var r g <;> exact ⟨_, rfl⟩
 
 /-- the other index: `waitUndo` reads `Positions[len-2]` when its engine reports a win in one for the bot; on a
 one-position record (ply 0) that is a panic.  No engine that is sound (C05 `verdict_sound`) reports a win on the
@@ -568,14 +586,13 @@ example : ∃ p0 p1, Pos.new (friendlyConfig true 5) = .ok p0 ∧ p0.apply (Arra
   · decide +kernel
   · left; decide
 
-/-! ## the rule's remembered squares and the record can get out of step (observations)
+/-! ## the rule's remembered squares and the record (before and after `fixes/C07-fpa-record-notes.diff`)
 
-`LegalMove` is where the rules remember squares, and `Friendly.GetMove` calls it once per call, on the newest pair of
-the record.  The opening scripts are therefore right only if `GetMove` is called exactly once per ply, in order —
-true for a game played from the start without undos (the quantifier of C20), not otherwise.  The two theorems below
-are runs of the model on concrete games (replayed on the real code by `corpus/C20/glue-record-state.ops`); they are
-outside what C20 and C07 claim (no illegal move is transmitted, the record stays right), but the bot gives up a
-correctly played game. -/
+`LegalMove` is where the rules remember squares.  Before the patch `Friendly.GetMove` called it once per call, on the
+newest pair of the record: the opening scripts were right only if `GetMove` was called exactly once per ply, in order —
+true for a game played from the start without undos, not otherwise (`*_pinned`: runs of the model of that tree on
+concrete games, where the bot gave up a correctly played game).  With the patch the notes are rebuilt from the record on
+every call (`*_no_resign_glue`: the same games; replayed on the real code by `corpus/C20/glue-record-state.ops`). -/
 
 /-- events of a game as `Friendly.GetMove` sees it through the bot loop: the record grows by a move, shrinks by
 an `Undo`, and `GetMove` is called on the newest position (`call`) -/
@@ -592,22 +609,29 @@ structure Trace where
   actions : List Action     -- oldest first
   failed : Bool := false    -- an illegal move, an undo on the start position, or a panic
 
-/-- run events on the model (all hash-independent: the Zobrist basis is irrelevant to the actions) -/
-def runEvents (color : Color) (size : Nat) (o : CheckOracle) : Trace → List Ev → Trace
+/-- run events on a model `gm` of `Friendly.GetMove` (all hash-independent: the Zobrist basis is irrelevant to the actions) -/
+def runEventsWith (gm : Option (Variant × Rule) → GameRec → Pos → CheckOracle → R (Option (Variant × Rule) × Action))
+    (color : Color) (size : Nat) (o : CheckOracle) : Trace → List Ev → Trace
   | t, [] => t
   | t, e :: es =>
     if t.failed then t else
     match e, t.positions, t.moves with
     | .move m, p :: ps, ms =>
       match p.apply (Array.replicate 64 0#64) m with
-      | .ok q => runEvents color size o { t with positions := q :: p :: ps, moves := m :: ms } es
+      | .ok q => runEventsWith gm color size o { t with positions := q :: p :: ps, moves := m :: ms } es
       | .error _ => { t with failed := true }
-    | .undo, _ :: q :: ps, _ :: ms => runEvents color size o { t with positions := q :: ps, moves := ms } es
+    | .undo, _ :: q :: ps, _ :: ms => runEventsWith gm color size o { t with positions := q :: ps, moves := ms } es
     | .call, p :: ps, ms =>
-      match Glue.friendlyGetMove t.fpa { color := color, size := size, positions := p :: ps, moves := ms } p o with
-      | .ok (f, a) => runEvents color size o { t with fpa := f, actions := t.actions ++ [a] } es
+      match gm t.fpa { color := color, size := size, positions := p :: ps, moves := ms } p o with
+      | .ok (f, a) => runEventsWith gm color size o { t with fpa := f, actions := t.actions ++ [a] } es
       | .error _ => { t with failed := true }
     | _, _, _ => { t with failed := true }
+
+/-- … on the code as it is (with `fixes/C07-fpa-record-notes.diff`) -/
+def runEvents := runEventsWith Glue.friendlyGetMove
+
+/-- … on the tree before that patch -/
+def runEventsPinned := runEventsWith Glue.friendlyGetMovePinned
 
 def startTrace (var : Variant) (size : Nat) : Option Trace :=
   match Pos.new (friendlyConfig true size) with
@@ -629,27 +653,47 @@ theorem cairn_opening_runs :
             .think (some Facts.maxThink) (some .minThink)] := by
   decide +kernel
 
-/-- **An `Undo` inside the cairn opening makes the bot resign a correctly played game.**  Same game; after the
-bot's scripted slide `b3>` the opponent asks to undo it (`Friendly.AcceptUndo` always agrees).  The check of that
-slide had overwritten `whitePlace` with the centre square, so the re-check of Black's (accepted) stone `c2` now
-measures distance 1 instead of 2: `Resign`, telling Black they misplaced their stone (`cairnErrors[3]`). -/
-theorem cairn_undo_resigns :
-    (startTrace .cairn 5).map (fun t => (runEvents .white 5 quiet t
+/-- **Before `fixes/C07-fpa-record-notes.diff`: an `Undo` inside the cairn opening made the bot resign a correctly played
+game.**  Same game; after the bot's scripted slide `b3>` the opponent asks to undo it (`Friendly.AcceptUndo` always
+agrees).  The check of that slide had overwritten `whitePlace` with the centre square, so the re-check of Black's
+(accepted) stone `c2` measured distance 1 instead of 2: `Resign`, telling Black they misplaced their stone
+(`cairnErrors[3]`). -/
+theorem cairn_undo_resigns_pinned :
+    (startTrace .cairn 5).map (fun t => (runEventsPinned .white 5 quiet t
         [.call, .move (place 0 0), .call, .move (place 4 4), .call, .move (place 1 2), .call, .move (place 2 1), .call,
          .move (slideR 1 2), .call, .undo, .call]).actions) =
       some [.think (some Facts.maxThink) (some .minThink), .noMove, .move (place 1 2), .noMove, .move (slideR 1 2), .noMove,
             .resign (.cairn 3)] := by
   decide +kernel
 
-/-- **A game resumed inside the opening loses the remembered squares.**  Double stack, bot Black, 5×5: the server
-replays `c3 d4 d4<` (no `GetMove` call in between, as after a reconnect), then the bot is asked: it scripts `b1` —
-next to `a1`, the zero value of `blackPlace`, not next to its stone on `c3` — and after White's correct return `c4>`
-it resigns, telling White they should have moved back to where they started (`doubleStackErrors[4]`). -/
-theorem doubleStack_resume_resigns :
-    (startTrace .doubleStack 5).map (fun t => (runEvents .black 5 quiet t
+/-- **… with the patch the re-check accepts `c2` and the bot scripts its slide `b3>` again** (the notes are rebuilt from
+the record: `whitePlace` is `b3` again). -/
+theorem cairn_undo_no_resign_glue :
+    (startTrace .cairn 5).map (fun t => (runEvents .white 5 quiet t
+        [.call, .move (place 0 0), .call, .move (place 4 4), .call, .move (place 1 2), .call, .move (place 2 1), .call,
+         .move (slideR 1 2), .call, .undo, .call]).actions) =
+      some [.think (some Facts.maxThink) (some .minThink), .noMove, .move (place 1 2), .noMove, .move (slideR 1 2), .noMove,
+            .move (slideR 1 2)] := by
+  decide +kernel
+
+/-- **Before the patch: a game resumed inside the opening lost the remembered squares.**  Double stack, bot Black, 5×5:
+the server replays `c3 d4 d4<` (no `GetMove` call in between, as after a reconnect), then the bot is asked: it scripted
+`b1` — next to `a1`, the zero value of `blackPlace`, not next to its stone on `c3` — and after White's correct return
+`c4>` it resigned, telling White they should have moved back to where they started (`doubleStackErrors[4]`). -/
+theorem doubleStack_resume_resigns_pinned :
+    (startTrace .doubleStack 5).map (fun t => (runEventsPinned .black 5 quiet t
         [.move (place 2 2), .move (place 3 3), .move (slideL 3 3), .call, .move (place 1 0), .call,
          .move (slideR 2 3), .call]).actions) =
       some [.move (place 1 0), .noMove, .resign (.doubleStack 4)] := by
+  decide +kernel
+
+/-- **… with the patch the resumed game goes on**: the bot scripts `b3` (next to its stone on `c3`, not on `d4` where
+White must return), accepts White's return `c4>` and scripts the stacking slide `b3>`. -/
+theorem doubleStack_resume_no_resign_glue :
+    (startTrace .doubleStack 5).map (fun t => (runEvents .black 5 quiet t
+        [.move (place 2 2), .move (place 3 3), .move (slideL 3 3), .call, .move (place 1 2), .call,
+         .move (slideR 2 3), .call]).actions) =
+      some [.move (place 1 2), .noMove, .move (slideR 1 2)] := by
   decide +kernel
 
 /-! ## `Config` -/
